@@ -14,6 +14,7 @@ import (
 	"path"
 	"path/filepath"
 	"slices"
+	"sync"
 	"text/template"
 	"time"
 
@@ -45,6 +46,9 @@ type HTMLReport struct {
 
 	// bestResults is the best results for each asset.
 	bestResults []*htmlReportResult
+
+	// mu guards assetResults and bestResults, which the backtest workers update concurrently.
+	mu sync.Mutex
 
 	// WriteStrategyReports indicates whether the individual strategy reports should be generated.
 	WriteStrategyReports bool
@@ -103,6 +107,9 @@ func (h *HTMLReport) Begin(assetNames []string, _ []strategy.Strategy) error {
 
 // AssetBegin is called when backtesting for the given asset begins.
 func (h *HTMLReport) AssetBegin(name string, strategies []strategy.Strategy) error {
+	h.mu.Lock()
+	defer h.mu.Unlock()
+
 	_, ok := h.assetResults[name]
 	if ok {
 		return fmt.Errorf("asset has already begun: %s", name)
@@ -137,6 +144,18 @@ func (h *HTMLReport) Write(assetName string, currentStrategy strategy.Strategy, 
 		go helper.Drain(snapshots)
 	}
 
+	result := &htmlReportResult{
+		AssetName:    assetName,
+		StrategyName: currentStrategy.Name(),
+		Action:       <-actions,
+		Since:        <-sinces,
+		Outcome:      <-outcomes * 100,
+		Transactions: <-transactions,
+	}
+
+	h.mu.Lock()
+	defer h.mu.Unlock()
+
 	// Get asset strategy results.
 	results, ok := h.assetResults[assetName]
 	if !ok {
@@ -144,26 +163,23 @@ func (h *HTMLReport) Write(assetName string, currentStrategy strategy.Strategy, 
 	}
 
 	// Append current strategy result for the asset.
-	h.assetResults[assetName] = append(results, &htmlReportResult{
-		AssetName:    assetName,
-		StrategyName: currentStrategy.Name(),
-		Action:       <-actions,
-		Since:        <-sinces,
-		Outcome:      <-outcomes * 100,
-		Transactions: <-transactions,
-	})
+	h.assetResults[assetName] = append(results, result)
 
 	return nil
 }
 
 // AssetEnd is called when backtesting for the given asset ends.
 func (h *HTMLReport) AssetEnd(name string) error {
+	h.mu.Lock()
 	results, ok := h.assetResults[name]
+	if ok {
+		delete(h.assetResults, name)
+	}
+	h.mu.Unlock()
+
 	if !ok {
 		return fmt.Errorf("asset has not begun: %s", name)
 	}
-
-	delete(h.assetResults, name)
 
 	// Sort the backtest results by the outcomes.
 	slices.SortFunc(results, func(a, b *htmlReportResult) int {
@@ -174,7 +190,10 @@ func (h *HTMLReport) AssetEnd(name string) error {
 
 	// Report the best result for the current asset.
 	h.Logger.Info("Best outcome", "asset", name, "strategy", bestResult.StrategyName, "outcome", bestResult.Outcome)
+
+	h.mu.Lock()
 	h.bestResults = append(h.bestResults, bestResult)
+	h.mu.Unlock()
 
 	// Write the asset report.
 	err := h.writeAssetReport(name, results)
